@@ -19,6 +19,7 @@ def load_specs():
             specs[l.fid] = l
     from specs import schema
     specs['@class_invariants'] = getattr(schema, 'CLASS_INVARIANTS', {})
+    specs['@constructor_site_invariants'] = getattr(schema, 'CONSTRUCTOR_SITE_INVARIANTS', set())
     return specs
 
 
